@@ -11,6 +11,7 @@ import (
 	"errors"
 	"fmt"
 	"io"
+	"math"
 	"math/rand"
 	"net"
 	"runtime"
@@ -49,6 +50,9 @@ const (
 
 const (
 	maskBit = 1 << 7
+
+	// 2 bytes head, 8 bytes extended payload length, 4 bytes mask key.
+	maxFrameHeadLen = 14
 )
 
 // Conn .
@@ -354,6 +358,10 @@ func (c *Conn) nextFrame() (int, MessageType, []byte, bool, bool, bool, error) {
 		ml := 0
 		if c.message != nil {
 			ml = len(*c.message)
+		}
+		if bodyLen > int64(math.MaxInt64-maxFrameHeadLen-ml) {
+			// ml+bodyLen or headLen+bodyLen would overflow.
+			return 0, 0, nil, false, false, false, ErrMessageTooLarge
 		}
 		if c.isMessageTooLarge(ml + int(bodyLen)) {
 			return 0, 0, nil, false, false, false, ErrMessageTooLarge
